@@ -12,6 +12,7 @@ import json
 import os
 import random
 import shutil
+import time
 
 from .. import core
 from .. import lib_sched as L
@@ -285,7 +286,7 @@ def coarse_class(clause, obs):
     return clause
 
 
-def shrink_many(ctx, todo, max_rounds, observe_fn=None, spec='Trace_Sched', extra=None):
+def shrink_many(ctx, todo, max_rounds, observe_fn=None, spec='Trace_Sched', extra=None, budget_s=None):
     """Greedy shrinking of several rejected cases at once (one TLC batch per round for all of them):
     a one-step reduction is kept if the real scheduler is still rejected with the same clause.
     todo: {tag: (case, coarse class)} -> {tag: shrunk case}"""
@@ -293,7 +294,10 @@ def shrink_many(ctx, todo, max_rounds, observe_fn=None, spec='Trace_Sched', extr
     cur = {tag: dict(case, P={k: v for k, v in case['P'].items() if k != 'chars'}, layout=0, plain=True)
            for tag, (case, _) in todo.items()}
     active = set(todo)
+    deadline = time.time() + (budget_s or (45 if ctx.quick else 400))
     for rnd in range(max_rounds):
+        if time.time() > deadline:
+            break
         batch, owner = [], []
         for tag in sorted(active):
             case = cur[tag]
@@ -341,7 +345,7 @@ def run(ctx):
     phases = {}
     ctx.cover['phase_wall_s'] = phases
     # ---- 1. design-level model checking
-    if not os.environ.get('VERIF_SKIP_MC'):     # development only (mutation runs): skip the design-level MC
+    if not (os.environ.get('VERIF_SKIP_MC') or ctx.replay):   # VERIF_SKIP_MC: development only (mutation runs); replay: one case only
         ctx.mc('MC_SchedPopulate', mc_cfg(ctx), timeout=1500,
                required_actions=('Pick3', 'MSeed', 'MPopChild'))
 
@@ -409,7 +413,7 @@ def run(ctx):
         if clause == 'illegal-input':
             raise MachineryError(f'illegal input reached validation: {json.dumps(case)[:600]}')
         if ok:
-            bfs += pos
+            bfs += pos if not case['origin'].startswith('corpus-expectation') else 1   # (hand-written lists are unordered)
             nonempty += len(t['obs']['edges']) > 0
             features.add((len(t['obs']['items']), len(t['obs']['edges']), sum(i_['ignored'] for i_ in t['obs']['items']),
                           sum(i_['kind'] == 'mod' for i_ in t['obs']['items'])))
@@ -445,3 +449,44 @@ def run(ctx):
         'insertion order of Scheduler.items is reported (bfs_order_consistent) but not part of the property',
         'TLC and the TLA+ modules are trusted; python renders, runs Loki and records only',
     ]
+
+
+def selftest(ctx):
+    """Binding check: accepted traces of the real scheduler must be rejected once a recorded field is corrupted."""
+    cproj = corpus_project()
+    cpaths, search = corpus_paths()
+    base = []
+    for name, cfg, _, _ in CORPUS[:4]:
+        obs = observe(cproj, cfg, None, 0, True, True, plain=True, paths=cpaths, search=search)
+        base.append({'P': L.tla_project(cproj), 'C': cfg, 'obs': obs})
+    cases, expect = [], []
+    for b in base:
+        cases.append(b)
+        expect.append('ok')
+        for what in ('drop-edge', 'rename-item', 'flip-ignored', 'drop-item', 'add-edge', 'wrong-file'):
+            o = json.loads(json.dumps(b['obs']))
+            if what == 'drop-edge' and o['edges']:
+                o['edges'].pop()
+            elif what == 'rename-item':
+                o['items'][-1]['name'] += 'x'
+            elif what == 'flip-ignored':
+                o['items'][0]['ignored'] = not o['items'][0]['ignored']
+            elif what == 'drop-item':
+                victim = o['items'].pop()['name']
+                o['edges'] = [e for e in o['edges'] if victim not in e]
+            elif what == 'add-edge' and len(o['items']) > 1:
+                o['edges'].append([o['items'][-1]['name'], o['items'][0]['name']])
+            elif what == 'wrong-file':
+                o['items'][0]['file'] = 'nowhere'
+            else:
+                continue
+            cases.append({'P': b['P'], 'C': b['C'], 'obs': o})
+            expect.append('reject')
+    verdicts = ctx.validate('Trace_Sched', 'Trace_Sched', cases)
+    bad = [(i, verdicts[i]) for i in range(len(cases)) if (verdicts[i][0]) != (expect[i] == 'ok')]
+    if bad:
+        print(f'SELFTEST-FAILED C21: {bad[:5]}')
+        return 2
+    print(f'SELFTEST-OK C21: {expect.count("ok")} accepted traces, {expect.count("reject")} corrupted copies rejected '
+          f'({sorted({verdicts[i][1] for i in range(len(cases)) if expect[i] == "reject"})})')
+    return 0
